@@ -195,6 +195,10 @@ pub struct History {
     /// 0 = the default of 120; rarely a power of two up to 2^17 (deep sweeps of one order)
     #[serde(default)]
     pub max_rounds: u32,
+    /// after every operation the caller also makes this read-only call (a publisher that renders
+    /// the level after each change); its content must describe the level as it then is
+    #[serde(default)]
+    pub read_every: Option<ReadKind>,
 }
 
 // ------------------------------------------------------------------------------------
@@ -389,6 +393,19 @@ pub fn op_strategy(cfg: HistCfg, profile: Profile) -> BoxedStrategy<Op> {
     proptest::strategy::Union::new_weighted(v).boxed()
 }
 
+/// One history in seven (where the check uses read-only calls at all) renders the level through one
+/// fixed read-only call after every operation.
+fn read_every_strategy(on: bool) -> BoxedStrategy<Option<ReadKind>> {
+    if !on {
+        return Just(None).boxed();
+    }
+    prop_oneof![
+        12 => Just(None),
+        2 => proptest::sample::select(vec![ReadKind::Snapshot, ReadKind::Package, ReadKind::SnapshotJson, ReadKind::Display, ReadKind::SerdeJson, ReadKind::Data]).prop_map(Some),
+    ]
+    .boxed()
+}
+
 pub fn history(cfg: HistCfg) -> BoxedStrategy<History> {
     if !cfg.zeros && cfg.zeros_share > 0 {
         let mut with = cfg;
@@ -424,7 +441,7 @@ pub fn history(cfg: HistCfg) -> BoxedStrategy<History> {
             price,
             gen::id_pool(6, 12),
             proptest::collection::vec(op_strategy(cfg, profile), 0..=cfg.max_len),
-            any::<bool>(),
+            (any::<bool>(), read_every_strategy(cfg.w_read > 0)),
             prop_oneof![
                 7 => Just(0u64),
                 1 => gen::boundary_u64(),
@@ -433,11 +450,11 @@ pub fn history(cfg: HistCfg) -> BoxedStrategy<History> {
             ]
             .prop_flat_map(|g| (any::<bool>(), prop_oneof![40 => Just(0u32), 3 => Just(1_000u32), 2 => Just(6_000u32), 1 => 65_000u32..=70_000, 1 => 130_000u32..=140_000]).prop_map(move |(w, r)| (g, w, r))),
         )
-            .prop_map(move |(price, pool, mut ops, hold, (gen_start, wrap, max_rounds))| {
+            .prop_map(move |(price, pool, mut ops, (hold, read_every), (gen_start, wrap, max_rounds))| {
                 if cfg.final_drain {
                     ops.push(Op::Match { size: MatchSize::AllPlus1 });
                 }
-                History { zeros: cfg.zeros, price, profile, ts_mode, pool, ops, ghost: None, hold, gen_start, wrap_ok: cfg.wrap_ok && profile == Profile::Boundary && wrap, max_rounds }
+                History { zeros: cfg.zeros, price, profile, ts_mode, pool, ops, ghost: None, hold, gen_start, wrap_ok: cfg.wrap_ok && profile == Profile::Boundary && wrap, max_rounds, read_every }
             })
     })
     .boxed()
@@ -527,6 +544,10 @@ pub struct Facts {
     pub rebuilds: u64,
     pub rebuild_with_touched: bool,
     pub reads: u64,
+    /// read-only calls made after an operation because the history asks for one after every operation
+    pub reads_after_every_op: u64,
+    /// read-only calls whose returned content was decoded again and compared with the level
+    pub read_contents_checked: u64,
     pub set_aside_orders: u64,
     pub kinds_seen: [bool; 7],
     pub boundary: bool,
@@ -715,6 +736,7 @@ pub struct Interp {
     pub step: usize,
     pub dead: bool,
     pub skip_reads: bool,
+    pub read_every: Option<ReadKind>,
     pub event_since_match: bool,
     pub taker_counter: u64,
     pub trace: Vec<String>,
@@ -796,6 +818,7 @@ impl Interp {
             step: 0,
             dead: false,
             skip_reads: false,
+            read_every: h.read_every,
             event_since_match: false,
             taker_counter: 0,
             trace: Vec::new(),
@@ -1075,6 +1098,17 @@ impl Interp {
     // -------------------------------------------------------------------------------
 
     pub fn apply(&mut self, op: &Op) -> OpResult {
+        let r = self.apply_one(op);
+        if let Some(k) = self.read_every {
+            if !self.dead && !self.skip_reads && !matches!(op, Op::Read(_) | Op::GhostAdd { .. }) {
+                self.facts.reads_after_every_op += 1;
+                self.do_read(k);
+            }
+        }
+        r
+    }
+
+    fn apply_one(&mut self, op: &Op) -> OpResult {
         if self.dead {
             return OpResult::Aborted;
         }
@@ -2173,6 +2207,7 @@ impl Interp {
         if matches!(k, ReadKind::Snapshot | ReadKind::Package | ReadKind::SnapshotJson) {
             self.check_snapshot_figures();
         }
+        self.check_read_content(k);
         if self.fingerprint() != before {
             self.violate(Oracle::Update, format!("read-only call {:?} changed the level", k));
         }
@@ -2205,6 +2240,79 @@ impl Interp {
                 ),
             );
         }
+    }
+
+    /// What a content-bearing read-only call returns is decoded again and must describe the level
+    /// as it is now: same price, same orders field for field, same aggregates (a rendering that is
+    /// out of date, e.g. served from a cache an earlier call filled, is neither pure nor a round trip).
+    fn check_read_content(&mut self, k: ReadKind) {
+        let p = match k {
+            ReadKind::Snapshot => RebuildPath::FromSnapshot,
+            ReadKind::Package => RebuildPath::Package,
+            ReadKind::SnapshotJson => RebuildPath::Json,
+            ReadKind::Display => RebuildPath::Text,
+            ReadKind::SerdeJson => RebuildPath::Serde,
+            ReadKind::Data => RebuildPath::Data,
+            _ => return,
+        };
+        // (levels whose sums were allowed to exceed 64 bits have no faithful rendering)
+        if self.wrap_ok || self.dead {
+            return;
+        }
+        let built = self.render_and_decode(p);
+        let new = match built {
+            Ok(Ok(l)) => l,
+            Ok(Err(e)) => {
+                let m = format!("what the read-only call {:?} returned cannot be decoded again: {e}", k);
+                self.violate(Oracle::Update, m.clone());
+                self.violate(Oracle::Rebuild, m);
+                return;
+            }
+            Err(m) => {
+                self.violate(Oracle::Panic, format!("decoding what the read-only call {:?} returned panicked: {m}", k));
+                return;
+            }
+        };
+        self.facts.read_contents_checked += 1;
+        let key = |o: &Order| o.id().to_string();
+        let mut a = listing_of(&self.level);
+        let mut b = listing_of(&new);
+        a.sort_by_key(key);
+        b.sort_by_key(key);
+        let agg = |l: &PriceLevel| (l.price(), l.visible_quantity(), l.hidden_quantity(), l.order_count());
+        if a != b || agg(&new) != agg(&self.level) {
+            let m = format!(
+                "the read-only call {:?} returned content that does not describe the level: the level holds [{}] (price/visible/hidden/count {:?}), the returned content decodes to [{}] ({:?})",
+                k,
+                a.iter().map(brief).collect::<Vec<_>>().join(", "),
+                agg(&self.level),
+                b.iter().map(brief).collect::<Vec<_>>().join(", "),
+                agg(&new)
+            );
+            self.violate(Oracle::Update, m.clone());
+            self.violate(Oracle::Rebuild, m);
+        }
+    }
+
+    fn render_and_decode(&self, p: RebuildPath) -> Result<Result<PriceLevel, String>, String> {
+        let level = &self.level;
+        catch(|| match p {
+            RebuildPath::FromSnapshot => PriceLevel::from_snapshot(level.snapshot()).map_err(|e| e.to_string()),
+            RebuildPath::FromSnapshotRef => Ok(PriceLevel::from(&level.snapshot())),
+            RebuildPath::Package => level
+                .snapshot_package()
+                .and_then(PriceLevel::from_snapshot_package)
+                .map_err(|e| e.to_string()),
+            RebuildPath::Json => level
+                .snapshot_to_json()
+                .and_then(|j| PriceLevel::from_snapshot_json(&j))
+                .map_err(|e| e.to_string()),
+            RebuildPath::Serde => serde_json::to_string(level)
+                .map_err(|e| e.to_string())
+                .and_then(|j| serde_json::from_str::<PriceLevel>(&j).map_err(|e| e.to_string())),
+            RebuildPath::Text => PriceLevel::from_str(&level.to_string()).map_err(|e| e.to_string()),
+            RebuildPath::Data => PriceLevel::try_from(PriceLevelData::from(level)).map_err(|e| e.to_string()),
+        })
     }
 
     fn do_rebuild(&mut self, p: RebuildPath) -> OpResult {
